@@ -509,8 +509,8 @@ def gen_select(rng, n):
     import selectlib as sl
     lines = []
     while len(lines) < n:
-        nodes = sl.gen_world(rng, nmax=10, files=rng.chance(1, 2), nocache=rng.chance(1, 4))
-        en = sl.enc_nodes(nodes)
+        nodes = sl.gen_world(rng, nmax=10, files=rng.chance(1, 2), nocache=rng.chance(1, 4), spell=True)
+        en = sl.enc_nodes(nodes)     # inputs as spelled (./f, zz/../f, d//f, d/./f): Path.clean / join_path are exercised through owners
         for _ in range(4):
             cfg = sl.gen_cfg(rng, nodes)
             if rng.chance(1, 15):
@@ -521,7 +521,10 @@ def gen_select(rng, n):
             elif k < 8:
                 lines.append("%s\t%s\t-\t%d" % (rng.choice([["ancestors", "ancestors-paths"], ["descendants", "descendants-paths"], ["direct"]][k - 5]), en, i))
             else:
-                lines.append(c20.model_line(nodes, c20.gen_queries(rng, nodes, 1)[0]))
+                ml = c20.model_line(nodes, c20.gen_queries(rng, nodes, 1)[0])
+                if ml.startswith("owners\t") and rng.chance(1, 3):
+                    ml = "owners-verbatim" + ml[len("owners"):]
+                lines.append(ml)
         g = rng.choice([sl.ladder(1 + rng.below(3), 1 + rng.below(4)), sl.chain(1 + rng.below(12)), sl.dense(2 + rng.below(7)),
                         sl.dense_k(4 + rng.below(8), 3), [nd["deps"] for nd in nodes], [[1], [0]], [[], [5]]])
         top, bottom = (len(g) - 1, 0) if rng.chance(3, 4) else (rng.below(len(g)), rng.below(len(g)))
@@ -561,8 +564,8 @@ def conv_select(line, st):
         return app(cg[f[0]], nodes(f[1])[1], gn(f[3]))
     if f[0] in ("deps", "rdeps") and len(f) == 5:
         return app("CDeps" if f[0] == "deps" else "CRdeps", *nodes(f[1]), cfg(f[2]), gn(f[3]), gb(f[4] == "1"))
-    if f[0] == "owners" and len(f) == 4:
-        return app("COwners", nodes(f[1])[0], gl([s(t) for t in dots(f[3])]))
+    if f[0] in ("owners", "owners-verbatim") and len(f) == 4:
+        return app("COwners" if f[0] == "owners" else "COwnersVerbatim", nodes(f[1])[0], gl([s(t) for t in dots(f[3])]))
     cc = {"cost": "CCost", "costv": "CCostv", "sets": "CSets"}
     if f[0] in cc and len(f) == 4:
         return app(cc[f[0]], graph(f[1]), gn(f[2]), gn(f[3]))
